@@ -355,6 +355,9 @@ def make_typing_module(name="typing"):
     # Protocol / Generic as base classes: plain empty classes
     m.ns["Protocol"] = Class("Protocol", [], {}, module="typing")
     m.ns["Generic"] = Class("Generic", [], {}, module="typing")
+    nt = Class("NamedTuple", [], {}, module="typing")
+    nt.is_namedtuple_base = True
+    m.ns["NamedTuple"] = nt
     return m
 
 
